@@ -165,8 +165,9 @@ def run(repo: Repo, chk: Check) -> None:
                what=f'RpcNode.{vname} sends through {[norm(c.func) for c in sends]}: on a multi-node client the request goes to the first URI and the rotation is not advanced')
     chk.minimum('verb helpers of RpcNode', nverbs, 4)
     direct = []
+    allowed = {f.qualname for f in repo.with_fresh_callees(repo.func(f'{base_q}.request'))}  # request itself and the helpers later extracted from it
     for fi2 in repo.iter_functions('pytezos.rpc.'):
-        if fi2.qualname == f'{base_q}.request':
+        if fi2.qualname in allowed:
             continue
         for c in ast.walk(fi2.node):
             if isinstance(c, ast.Call):
